@@ -78,6 +78,9 @@ impl Tunnel {
             (shutdown.notification_handler(), shutdown.completion_guard())
         };
         tokio::select! {
+            // The shutdown also takes the listeners down, which makes the downstream fail:
+            // whichever is seen first, a submitted shutdown means a graceful one
+            biased;
             x = shutdown_notification.wait() => {
                 match x {
                     Ok(_) => self.downstream.graceful_shutdown().await,
